@@ -475,6 +475,8 @@ impl Terminal for UnixTerminal {
                 // all pending signals must be handled before returning, `pending`
                 // has already drained the pipe, so skipped signals would be lost
                 let mut quit = false;
+                #[cfg(feature = "verif-hooks")]
+                crate::common::verif_yield::point("signal-pending");
                 for signal in self.signal_delivery.pending() {
                     match signal {
                         SIGWINCH => {
@@ -500,6 +502,8 @@ impl Terminal for UnixTerminal {
             // process waker
             if waker.is_readable() {
                 let mut buf = [0u8; 1024];
+                #[cfg(feature = "verif-hooks")]
+                crate::common::verif_yield::point("waker-read");
                 if guard_io(self.waker_read.read(&mut buf), 0)? != 0 {
                     self.events_queue.push_back(TerminalEvent::Wake);
                 }
